@@ -406,8 +406,10 @@ class Engine:
             return VBI(name)
         if name in EXC_PARENT:
             return VBI(name)
-        if self.spec_mode and name in B.SPEC_FUNCS:
-            return VBI('spec.' + name)
+        if self.spec_mode:
+            from . import spec as _spec
+            if name in B.SPEC_FUNCS or name in _spec.EXTRA:
+                return VBI('spec.' + name)
         raise Unsupported('unbound name %r' % name)
 
     # ------------------------------------------------------------ statements
